@@ -340,7 +340,13 @@ func visitInstr(fr *frame, instr ssa.Instruction) continuation {
 		default:
 			panic(fmt.Sprintf("unexpected x type in IndexAddr: %T", x))
 		}
-		fr.env[instr] = fr.elemAddr(base, idx, instr.Index.Type(), deref(instr.Type()))
+		ea := fr.elemAddr(base, idx, instr.Index.Type(), deref(instr.Type()))
+		if ep, ok := ea.(*value); ok && len(base) > 0 && ep == &base[0] && in.trailOn {
+			if _, isByte := base[0].(uint8); isByte || isSym(base[0]) {
+				in.elemOwner[ep] = base[:cap(base)]
+			}
+		}
+		fr.env[instr] = ea
 
 	case *ssa.Index:
 		x := fr.get(instr.X)
